@@ -184,7 +184,15 @@ def model(draw, logic, *, max_worlds=3, max_consts=3, natoms=3, preds=((0, 0, 1)
     worlds = list(range(nw))
     rel = _relation(draw, frame, worlds) if frame else set()
     nc = draw(st.integers(1, max_consts))
-    consts = [A.const(i) for i in range(nc)]
+    if draw(st.booleans()):
+        consts = [A.const(i) for i in range(nc)]
+    else:
+        # arbitrary names: all four letters, subscripts, not in alphabetical order of appearance
+        # a window of the constants in their true order (a b c d a1 b1 ...), shuffled: names that wrap the
+        # alphabet and mix subscripts are what the fresh-constant bookkeeping has to get right
+        pool = [A.const(i, sub) for sub in (0, 1, 2) for i in range(4)]
+        start = draw(st.integers(0, len(pool) - nc))
+        consts = list(draw(st.permutations(pool[start:start + nc])))
     m = R.Model(logic, worlds, rel, consts)
     classical = R.is_classical(logic)
     for w in worlds:
